@@ -23,3 +23,12 @@ VARIANTS = [
     M('C12', 'refactor-stream-paths-local', E(GT, "                path = as_join_repr(self.stdout_path(), self.cwd,\n                                    self.ref_subdir())\n                exc = self.exclusions.get('STDOUT')", "                sp = self.stdout_path()\n                path = as_join_repr(sp, self.cwd, self.ref_subdir())\n                exc = self.exclusions.get('STDOUT')"),
       kind='refactor'),
 ]
+
+CF = 'tdda/referencetest/checkfiles.py'
+VARIANTS += [
+    M('C12', 'text-files-read-leniently', E(CF, "            with open(actual_path, encoding=enc) as f:", "            with open(actual_path, encoding=enc, errors='ignore') as f:"), rule='C12-STRICT', key='check_file'),
+]
+
+VARIANTS += [
+    M('C12', 'preexisting-outputs-not-cleaned', E(GT, "                for ref_path in self.reference_files[1]]", "                for ref_path in self.reference_files[1]\n                if ref_path not in self.snapshot]"), rule='C12-CLEANSET', key='generated_file_paths'),
+]
